@@ -195,6 +195,7 @@ def run(ctx):
     # ---------------------------------------------------------------- SLICE / FIXED (shared)
     C05.fixed_rule(ctx, prefix='C01-FIXED')
     C05.embedded_rule(ctx, prefix='C01-FIXED')
+    C05.vars_rule(ctx, prefix='C01-FIXED')
     # ---------------------------------------------------------------- LEX
     # tuple comparisons on dialects without row values are expanded lexicographically: (a1..an) OP (b1..bn) = OR_i (a1=b1 and .. a(i-1)=b(i-1) and
     # ai OP_i bi).  For <= and >= only the LAST component may use the non-strict operator; a non-strict operator at an earlier position makes
